@@ -1642,9 +1642,13 @@ example : ((resolveConfig demoEnv demoSettings).toOption.map fun k => (planSourc
       (fun P => P.map fun p => (p.index, String.ofList p.path, match p.call with | .amex => "amex" | .boa => "boa" | .generic .. => "generic"))) =
     some (some [(0, "/b/data/a.csv", "generic"), (3, "/b/data/x.csv", "amex")]) := by decide +kernel
 
-/-- …and without `--quiet` the same run dies on the progress line of the nameless source: `KeyError: 'name'` -/
-example : ((resolveConfig demoEnv demoSettings).toOption.map fun k => planSources false demoEnv k) =
-    some (.error (.keyError kName)) := by decide +kernel
+/-- **Finding F11-name (the code violates the last clause of C11 on this input class; witness on `Impl`).**  The settings load, and
+with `--quiet` the run parses two sources; WITHOUT `--quiet` the same run dies on the progress line of the source that has no
+`name:` key (`KeyError: 'name'`) — the other source's figures are lost.  Replayed on the real code by the `plan` stream
+(notes/config_notes.md; proposed repair notes/fix_F11_name.diff). -/
+theorem nameless_source_kills_the_run_without_quiet :
+    ((resolveConfig demoEnv demoSettings).toOption.map fun k => ((planSources true demoEnv k).toOption.map List.length, planSources false demoEnv k)) =
+      some (some 2, .error (.keyError kName)) := by decide +kernel
 
 /-- how the reader takes `bank`'s settings: `has_header: "false"` is a non-empty string — the first line IS skipped;
 `negate_amount: false` switches `{-amount}` OFF; `delimiter: 0` is falsy — comma; `decimal_separator: ","` — European amounts -/
